@@ -38,6 +38,7 @@ fn main() {
         "C29" => props::c29::run(&mut ctx),
         "C30" => props::c30::run(&mut ctx),
         "C34" => props::c34::run(&mut ctx),
+        "C36" => props::c36::run(&mut ctx),
         "C38" => props::c38::run(&mut ctx),
         "C39" => props::c39::run(&mut ctx),
         other => {
